@@ -85,6 +85,8 @@ def merge_case(col, paths, cls, b, l, rm, info, cfg, variant, schema, prop):
     col.eval()
     nbd.hygiene()
     os.environ["PATH"] = paths[variant]
+    if variant == "full" and "git_styles" in paths:
+        col.count("git_conflictstyle:" + env.rotate_git_style(paths["git_styles"]))
     case = {"base": b, "local": l, "remote": rm, "class": cls, "info": info, "config": cfg, "path_variant": variant}
     args = merge_args(cfg)
     col.count("renderer:" + variant)
@@ -154,6 +156,7 @@ def run_stream(spec, prop, schema):
     col = Collector(prop)
     scratch = os.environ.get("VMON_SCRATCH", "/tmp")
     paths = env.make_path_variants(os.path.join(scratch, "paths-%s" % spec.get("shard", 0)))
+    paths["git_styles"] = env.git_style_variants(os.path.join(scratch, "paths-%s" % spec.get("shard", 0)))
     os.chdir(scratch)
     r = random.Random(spec["seed"])
     variants = ["full", "diffonly", "bare"]
